@@ -126,6 +126,12 @@ pub fn gen_xyz(r: &mut Rng) -> Vec<String> {
         _ => r.usize_below(400),
     };
     let mut lines = Vec::new();
+    // colours drawn from {0, 1} only (what a file of normalised colours looks like), and a first
+    // line that is a single small integer (what a point count looks like): both are plain XYZ
+    let binary_colours = r.chance(1, 8);
+    if r.chance(1, 16) && n > 3 {
+        lines.push((1 + r.below(3)).to_string());
+    }
     for _ in 0..n {
         match r.below(12) {
             0 => lines.push(String::new()),
@@ -150,6 +156,10 @@ pub fn gen_xyz(r: &mut Rng) -> Vec<String> {
                     })
                     .collect();
                 for _ in 0..3 {
+                    if binary_colours {
+                        parts.push(r.below(2).to_string());
+                        continue;
+                    }
                     parts.push(match r.below(6) {
                         0 => "0".into(),
                         1 => "255".into(),
